@@ -22,7 +22,13 @@
 (*              Node::list (scandir + stat of the state file) and maps the  *)
 (*              verdict with NodeMap (extracted, file_lock.rs).             *)
 (*   Cleaners   ProcessCleaner::new = state(), then CleanerAcquire          *)
-(*              (extracted), ownership, CleanerDrop (extracted).            *)
+(*              (extracted), ownership, CleanerDrop (extracted).  A cleaner  *)
+(*              whose j-th acquire step fails (it LOSES: file gone, lock     *)
+(*              held by another) executes the REFUSAL TAIL CleanerRefuse[j]  *)
+(*              (extracted from stepped runs of two real cleaners: the       *)
+(*              system calls of the early-return path of                     *)
+(*              ProcessCleaner::new, i.e. what the loser leaves behind)      *)
+(*              before it returns its error.                                 *)
 (*   Crash of the guard or a cleaner at any step: its descriptors are       *)
 (*   closed, i.e. its locks vanish.                                         *)
 (***************************************************************************)
@@ -31,6 +37,8 @@ EXTENDS Naturals, Sequences, FiniteSets, TLC, Json
 CONSTANTS
     GuardCreate, GuardDrop,      \* sequences of [op, f, perm]
     CleanerAcquire, CleanerDrop, \* sequences of [op, f, perm]
+    CleanerRefuse,               \* sequence (one entry per step of CleanerAcquire) of sequences of [op, f, perm]: the
+                                 \* calls a cleaner performs after that step has failed, before it returns the error
     NodeMap,                     \* [ProcessState verdict -> node level verdict]
     Monitors, Cleaners,          \* sets of process names (strings)
     Levels,                      \* [Monitors -> SUBSET {"pm", "cal", "node"}]: the levels at which a monitor may ask
@@ -66,7 +74,8 @@ view == <<exists, perm, content, lock, gpc, gcrashed, gcrashphase,
 
 NoPend == [v |-> "none", ph |-> "none", f |-> "none"]
 PInit == [pc |-> "idle", lv |-> "pm", pend |-> NoPend, q |-> 0, last |-> "none",
-          qdead |-> FALSE, qalone |-> FALSE, snap |-> <<>>, idx |-> 0, nopen |-> 0, cres |-> "none", err |-> "none"]
+          qdead |-> FALSE, qalone |-> FALSE, qdeadrun |-> FALSE, snap |-> <<>>, idx |-> 0, k |-> 0, chg |-> {},
+          cres |-> "none", err |-> "none"]
 
 Init ==
     /\ exists = [f \in Files |-> FALSE]
@@ -238,6 +247,11 @@ SigUnrecoverable(r, left) == <<"unrecoverable", r, left>>
 SigReclaim(ph) == <<"reclaim", ph>>
 SigExclusive(what) == <<"exclusive", what>>
 SigLoser(r) == <<"loser", r>>
+SigRefused(r) == <<"refused", r>>
+SigVanished(level) == <<"vanished", level>>
+
+\* some cleaner has begun to remove the files (it owns them and has executed the first step of its drop)
+CleanupBegun == \E c \in Cleaners : ps[c].pc \in {"drop", "done", "x_drop"}
 
 \* which files are still linked, as one string: c(ontext) s(tate) o(wner_lock)
 FilesLeft ==
@@ -256,9 +270,12 @@ MonPublish(p, base, v, ph) ==
                            \/ (lv # "pm" /\ shown \notin {"Dead", "DoesNotExist"})
                            \/ (gcrashphase = "running" /\ shown # "Dead"))
               THEN {SigUndetected(lv, gcrashphase, v)} ELSE {}
+        \* the process died while it was running (all files complete) and nobody who owns the files has begun to
+        \* remove them: "absent" would declare a cleanup finished that has not been performed
+        b3 == IF shown = "DoesNotExist" /\ base.qdeadrun /\ ~CleanupBegun THEN {SigVanished(lv)} ELSE {}
     IN /\ ps' = [ps EXCEPT ![p] = [base EXCEPT !.pc = "idle", !.pend = NoPend, !.q = @ + 1, !.last = shown,
-                                               !.qdead = FALSE, !.qalone = FALSE, !.snap = <<>>]]
-       /\ Record(b1 \cup b2)
+                                               !.qdead = FALSE, !.qalone = FALSE, !.qdeadrun = FALSE, !.snap = <<>>]]
+       /\ Record(b1 \cup b2 \cup b3)
 
 ErrOfState(v) ==
     CASE v = "Alive" -> "StillAlive"
@@ -282,15 +299,18 @@ CleanerResult(p, base, r, newpc) ==
         b3 == IF alone /\ ~(r = "Ok" \/ (r = "DoesNotExist" /\ nofile)) THEN {SigUnrecoverable(r, FilesLeft)} ELSE {}
         b4 == IF base.qdead /\ gcrashphase = "running"
                  /\ r \notin {"Ok", "OwnedByAnother", "BeingCleanedUp", "DoesNotExist"} THEN {SigLoser(r)} ELSE {}
+        \* a refused cleaner changes nothing: it has not removed / created / chmod-ed / written a token file
+        b5 == IF r # "Ok" /\ base.chg # {} THEN {SigRefused(r)} ELSE {}
     IN /\ ps' = [ps EXCEPT ![p] = [base EXCEPT !.pc = newpc, !.pend = NoPend, !.cres = r, !.err = "none",
-                                               !.qdead = FALSE, !.qalone = FALSE, !.snap = <<>>, !.nopen = 0]]
-       /\ Record(b1 \cup b2 \cup b3 \cup b4)
+                                               !.qdead = FALSE, !.qalone = FALSE, !.qdeadrun = FALSE, !.snap = <<>>,
+                                               !.k = 0, !.chg = {}]]
+       /\ Record(b1 \cup b2 \cup b3 \cup b4 \cup b5)
 
 \* the verdict of state() is available to p
 Conclude(p, base, v, ph) ==
     IF p \in Monitors THEN MonPublish(p, base, v, ph)
     ELSE IF v = "Dead"
-         THEN /\ ps' = [ps EXCEPT ![p] = [base EXCEPT !.pc = "acq", !.pend = NoPend, !.idx = 1, !.nopen = 0]]
+         THEN /\ ps' = [ps EXCEPT ![p] = [base EXCEPT !.pc = "acq", !.pend = NoPend, !.idx = 1, !.k = 0]]
               /\ bad' = bad
          ELSE CleanerResult(p, base, ErrOfState(v), "failed")
 
@@ -299,6 +319,7 @@ Started(p, lv, rec) ==
     IF ps[p].pc = "idle"
     THEN [rec EXCEPT !.lv = lv, !.qdead = gcrashed /\ \A c \in Cleaners \ {p} : ps[c].pc \in Harmless,
                      !.qalone = gcrashed /\ \A c \in Cleaners \ {p} : ps[c].pc \in CleanerTerminal \cup {"idle"},
+                     !.qdeadrun = gcrashed /\ gcrashphase = "running",
                      !.snap = Snapshot(p)]
     ELSE rec
 
@@ -333,48 +354,56 @@ AcqErr(o) ==   \* the error of ProcessCleaner::new when op o fails
       [] o.op = "getlk" -> "StillAlive"
       [] OTHER -> "OwnedByAnother"
 
-\* failing: the descriptors opened so far are closed (one call each), then the error is returned
-Fail(p, e, nclose) ==
-    IF nclose = 0 THEN CleanerResult(p, ps[p], e, "failed")
-    ELSE /\ ps' = [ps EXCEPT ![p] = [@ EXCEPT !.pc = "cfail", !.err = e, !.nopen = nclose]]
+\* step j of CleanerAcquire failed with error e: the refusal tail CleanerRefuse[j] is executed (one call per
+\* step), then the error is returned
+Refuse(p, j, e) ==
+    IF Len(CleanerRefuse[j]) = 0 THEN CleanerResult(p, ps[p], e, "failed")
+    ELSE /\ ps' = [ps EXCEPT ![p] = [@ EXCEPT !.pc = "refuse", !.err = e, !.idx = j, !.k = 1]]
          /\ bad' = bad
 
 CAcqStep(p) ==
     /\ p \in Cleaners /\ ps[p].pc = "acq"
-    /\ LET o == CleanerAcquire[ps[p].idx]
-           last == ps[p].idx = Len(CleanerAcquire)
-           Advance(n) == IF last THEN CleanerResult(p, ps[p], "Ok", "owner")
-                         ELSE /\ ps' = [ps EXCEPT ![p] = [@ EXCEPT !.idx = @ + 1, !.nopen = n]]
-                              /\ bad' = bad
+    /\ LET j == ps[p].idx
+           o == CleanerAcquire[j]
+           Advance == IF j = Len(CleanerAcquire) THEN CleanerResult(p, ps[p], "Ok", "owner")
+                      ELSE /\ ps' = [ps EXCEPT ![p] = [@ EXCEPT !.idx = j + 1]]
+                           /\ bad' = bad
        IN /\ CASE o.op = "open" ->
-                    /\ IF exists[o.f] THEN Advance(ps[p].nopen + 1) ELSE Fail(p, AcqErr(o), ps[p].nopen)
+                    /\ IF exists[o.f] THEN Advance ELSE Refuse(p, j, AcqErr(o))
                     /\ UNCHANGED fsvars
                [] o.op = "getlk" ->
-                    /\ IF LockedByOther(o.f, p) THEN Fail(p, AcqErr(o), ps[p].nopen) ELSE Advance(ps[p].nopen)
+                    /\ IF LockedByOther(o.f, p) THEN Refuse(p, j, AcqErr(o)) ELSE Advance
                     /\ UNCHANGED fsvars
                [] o.op = "lock" ->
                     IF LockedByOther(o.f, p)
-                    THEN \* try_lock failed: fstat decides between "removed" and "owned by another"
-                         /\ ps' = [ps EXCEPT ![p] = [@ EXCEPT !.pc = "cfail_fstat", !.pend = [NoPend EXCEPT !.f = o.f]]]
-                         /\ bad' = bad
+                    THEN \* try_lock failed: the tail (which starts with the fstat that decides between "removed" and
+                         \* "owned by another") follows
+                         /\ Refuse(p, j, AcqErr(o))
                          /\ UNCHANGED fsvars
-                    ELSE Apply(p, o) /\ Advance(ps[p].nopen)
-               [] o.op = "lockw" -> Apply(p, o) /\ Advance(ps[p].nopen)
+                    ELSE Apply(p, o) /\ Advance
+               [] o.op = "lockw" -> Apply(p, o) /\ Advance
                [] OTHER -> FALSE
           /\ hist' = Append(hist, <<p, o.op, o.f>>)
     /\ UNCHANGED gvars
 
-CFailStep(p) ==
-    /\ p \in Cleaners
-    /\ \/ /\ ps[p].pc = "cfail_fstat"
-          /\ Fail(p, IF exists[ps[p].pend.f] THEN "OwnedByAnother" ELSE "DoesNotExist", ps[p].nopen)
-          /\ hist' = Append(hist, <<p, "fstat", ps[p].pend.f>>)
-       \/ /\ ps[p].pc = "cfail"
-          /\ IF ps[p].nopen = 1 THEN CleanerResult(p, ps[p], ps[p].err, "failed")
-             ELSE /\ ps' = [ps EXCEPT ![p] = [@ EXCEPT !.nopen = @ - 1]]
+\* what a tail step (or any step of a cleaner that does not own the files) changes
+Changes(o) == o.op \in {"create", "chmod", "write"} \/ (o.op = "unlink" /\ exists[o.f])
+
+\* one call of the refusal tail
+CRefuseStep(p) ==
+    /\ p \in Cleaners /\ ps[p].pc = "refuse"
+    /\ LET j == ps[p].idx
+           k == ps[p].k
+           o == CleanerRefuse[j][k]
+           \* the fstat after a failed try_lock: link count 0 => "removed from the file system"
+           e2 == IF o.op = "fstat" /\ CleanerAcquire[j].op = "lock" /\ ~exists[o.f] THEN "DoesNotExist" ELSE ps[p].err
+           base == [ps[p] EXCEPT !.err = e2, !.chg = IF Changes(o) THEN @ \cup {o.f} ELSE @]
+       IN /\ IF o.op = "fstat" THEN UNCHANGED fsvars ELSE Apply(p, o)
+          /\ IF k = Len(CleanerRefuse[j]) THEN CleanerResult(p, base, e2, "failed")
+             ELSE /\ ps' = [ps EXCEPT ![p] = [base EXCEPT !.k = k + 1]]
                   /\ bad' = bad
-          /\ hist' = Append(hist, <<p, "close", "-">>)
-    /\ UNCHANGED <<fsvars, gvars>>
+          /\ hist' = Append(hist, <<p, o.op, o.f>>)
+    /\ UNCHANGED gvars
 
 CDropStep(p) ==
     /\ p \in Cleaners /\ ps[p].pc \in {"owner", "drop"}
@@ -389,7 +418,7 @@ CCrash(p) ==
     /\ CleanerMayCrash /\ p \in Cleaners
     /\ ps[p].pc \notin CleanerTerminal \cup {"idle"}
     /\ ps' = [ps EXCEPT ![p] = [@ EXCEPT !.pc = CASE ps[p].pc \in StateLabels -> "x_state"
-                                                    [] ps[p].pc \in {"acq", "cfail", "cfail_fstat"} -> "x_acq"
+                                                    [] ps[p].pc \in {"acq", "refuse"} -> "x_acq"
                                                     [] ps[p].pc = "owner" -> "x_owner"
                                                     [] OTHER -> "x_drop"]]
     /\ ReleaseLocks(p)
@@ -400,7 +429,7 @@ CCrash(p) ==
 Next ==
     \/ GCreateStep \/ GDropStep \/ GCrash
     \/ \E p \in Monitors : MonStep(p)
-    \/ \E p \in Cleaners : CStateStep(p) \/ CAcqStep(p) \/ CFailStep(p) \/ CDropStep(p) \/ CCrash(p)
+    \/ \E p \in Cleaners : CStateStep(p) \/ CAcqStep(p) \/ CRefuseStep(p) \/ CDropStep(p) \/ CCrash(p)
 
 Spec == Init /\ [][Next]_vars
 
@@ -428,6 +457,12 @@ ExclusiveCleanup ==
                  <= 1 + Cardinality({c \in Cleaners : ps[c].pc \in {"x_owner", "x_drop"}}))
 \* after a cleaner crashed, a later cleaner running alone succeeds (or finds nothing left)
 CleanerCrashRecoverable == Kind("unrecoverable") = {}
+\* a cleaner that is refused (lost the race, found the files gone / being cleaned up, was told the process is
+\* alive) has changed nothing: it has not removed, created, chmod-ed or written any of the token files
+RefusedChangesNothing == Kind("refused") = {}
+\* a process that died while running is not reported absent before a cleaner that owns the files has begun to
+\* remove them (nobody else may have removed them)
+AbsentOnlyAfterCleanup == Kind("vanished") = {}
 
 TypeOK ==
     /\ exists \in [Files -> BOOLEAN]
@@ -436,5 +471,9 @@ TypeOK ==
     /\ gpc \in 0..(LC + LD)
 
 \* generation aid (DESIGN.md 3.10): print every distinct state's position with the schedule that reached it
-Reach == PrintT(<<"REACH", ToJson(<<gpc, gcrashed, [p \in Procs |-> ps[p].pc], hist>>)>>)
+\* position of an observer: its label, and the index inside acquire / refusal tail / drop
+Pos(p) == ps[p].pc \o (IF ps[p].pc \in {"acq", "drop"} THEN "." \o ToString(ps[p].idx)
+                       ELSE IF ps[p].pc = "refuse" THEN "." \o ToString(ps[p].idx) \o "." \o ToString(ps[p].k)
+                       ELSE "")
+Reach == PrintT(<<"REACH", ToJson(<<gpc, gcrashed, [p \in Procs |-> Pos(p)], hist>>)>>)
 =============================================================================
